@@ -249,6 +249,25 @@ Definition pop_min (o : list name) (h : list entry) : option (entry * list entry
 (* the loop test self.schedule[0][0] < time.time() *)
 Definition due (t clock : Z) : bool := if gen.T18.RUN_CMP_STRICT then t <? clock else t <=? clock.
 
+(* ---- the except handler of run(): log.exception(<template>)  ----
+   What the handler evaluates before logging can itself raise: `template % name` (eager interpolation of the event
+   name) raises TypeError unless the name supplies exactly as many values as the template has directives -- a name
+   that is a tuple supplies len(name) values, any other name one.  (A constant template, or the name passed as a
+   logging argument, cannot raise: logging formats lazily and swallows formatting errors.)  The shape of the call is
+   regenerated from the source (gen.T18).
+   Names: Named k stands for a str for k < 8 (some contain % directives) and for a tuple of k - 8 strs for k >= 8
+   (harness/c18.py NAMES); only the number of values matters here. *)
+Definition fmt_args (n : name) : N :=
+  match n with
+  | Auto _ => 1%N
+  | Named k => if (k <? 8)%N then 1%N else (k - 8)%N
+  end.
+Definition handler_raises (n : name) : bool :=
+  if gen.T18.RUN_LOG_INTERPOLATES_NAME then negb (N.eqb gen.T18.RUN_LOG_DIRECTIVES (fmt_args n)) else false.
+(* after f(..args, ..kwargs) returned r: does run() abort because its own handler raised? *)
+Definition after_call (n : name) (r : res unit) : bool :=
+  match r with Ok _ => false | Raise _ => handler_raises n end.
+
 Definition popped (e : entry) (r : list entry) (o : list name) (bad : bool) (ev' : list (name * fn)) (s : state) : state :=
   St r ev' (counter s) (now s) (nreg s) (nsched s) (calls s) (PopRec (now s) e (heap s) :: pops s) (removed s)
     o (obad s || bad) (fuelout s).
@@ -265,8 +284,9 @@ Fixpoint run_loop (fuel : nat) (s : state) : state * res unit :=
             match take_key (e_name e) (events s) with
             | None => (popped e r o bad (events s) s, Raise KeyError)   (* f = self.events.pop(name), outside the try *)
             | Some (f, ev') =>
-                let '(s1, _) := call_fn f (e_args e) (popped e r o bad ev' s) in   (* except Exception: log *)
-                run_loop k s1
+                let '(s1, x) := call_fn f (e_args e) (popped e r o bad ev' s) in   (* except Exception: log *)
+                if after_call (e_name e) x then (s1, Raise TypeError)               (* the handler itself raised *)
+                else run_loop k s1
             end
           else (s, Ok tt)
       end
